@@ -14,6 +14,7 @@ func init() {
 			"CH-MAP: jsonexpr.walk token kind -> exposed text (number through d.Num, no float conversion); PV-OKUSE: parseValue's nested elements used only under ok",
 			"PV-ORDER / FE-BOOL: jsonexpr push/walk/pop, index increment, extract only under current.Equal(path)",
 			"LP-ATTEMPT: every return of a parser stage is behind a call handing the line to the extraction step; PV-GUARD: unpack validates a key only when the field becomes a label",
+			"PV-PAIR: regexp group labels are keyed by the index in re.SubexpNames(); PV-FRESH JSON path stack",
 		},
 		NotDecided: []string{"that jx, logfmt and regexp return the values that are in the document", "logqlpattern.Match's literal/capture alternation", "JSON path parsing"},
 		Rules: func(r *Run) {
